@@ -182,14 +182,14 @@ Definition same_ids (ds ds' : decls) : Prop :=
 Lemma plug_conn1_ids : forall c ds' a, same_ids (k_decls c) ds' ->
   check_plug_conn1 (with_decls c ds') a = check_plug_conn1 c a.
 Proof.
-  intros c ds' a (H1 & H2 & H3 & H4). unfold check_plug_conn1, conn_ctx, with_decls.
+  intros c ds' a (H1 & H2 & H3 & H4). unfold check_plug_conn1, check_plug_conn1_gen, conn_ctx, with_decls.
   cbn [k_decls k_env k_plug k_slot]. rewrite <- H2, <- H3, <- H4. reflexivity.
 Qed.
 
 Lemma slot_conn1_ids : forall c ds' a, same_ids (k_decls c) ds' ->
   check_slot_conn1 (with_decls c ds') a = check_slot_conn1 c a.
 Proof.
-  intros c ds' a (H1 & H2 & H3 & H4). unfold check_slot_conn1, conn_ctx, with_decls.
+  intros c ds' a (H1 & H2 & H3 & H4). unfold check_slot_conn1, check_slot_conn1_gen, conn_ctx, with_decls.
   cbn [k_decls k_env k_plug k_slot]. rewrite <- H1, <- H2, <- H4. reflexivity.
 Qed.
 
@@ -228,7 +228,7 @@ Lemma connect_spec : forall auto c, guard_conn auto c ->
   is_allow (check_connect auto c) = spec_connect_allowed auto c /\ check_connect auto c <> VPanic
   /\ check_connect auto c <> VInvalid.
 Proof.
-  intros auto c G. unfold guard_conn in G. unfold check_connect, spec_connect_allowed.
+  intros auto c G. unfold guard_conn in G. unfold check_connect, spec_connect_allowed, spec_connect_allowed_gen.
   destruct (beq (f_iface (k_slot c)) (f_iface (k_plug c))); cbn [negb andb]; [|repeat split; discriminate].
   destruct (first_rule (k_decls c) (f_iface (k_plug c))) as [[[|] r]|]; [| |repeat split; discriminate].
   - destruct G as [Gd Ga]. split; [apply eval_conn_allow; assumption|].
@@ -350,9 +350,9 @@ Qed.
 
 (* the alternatives that stand for the shortcuts *)
 Lemma plug_conn1_short_false : forall c, check_plug_conn1 c (alt_short false) = false.
-Proof. intro c. unfold check_plug_conn1. cbn. reflexivity. Qed.
+Proof. intro c. unfold check_plug_conn1, check_plug_conn1_gen. cbn. reflexivity. Qed.
 Lemma slot_conn1_short_false : forall c, check_slot_conn1 c (alt_short false) = false.
-Proof. intro c. unfold check_slot_conn1. cbn. reflexivity. Qed.
+Proof. intro c. unfold check_slot_conn1, check_slot_conn1_gen. cbn. reflexivity. Qed.
 
 Definition kind_index (auto : bool) : N := if auto then 2 else 1.
 
@@ -420,7 +420,7 @@ Qed.
 
 Lemma install_spec : forall i, guard_inst i -> check_install i = spec_install_allowed i.
 Proof.
-  intros i [Gs Gp]. unfold check_install, spec_install_allowed. f_equal.
+  intros i [Gs Gp]. unfold check_install, spec_install_allowed, spec_install_allowed_gen. f_equal.
   - apply forallb_ext_in. intros s Hs. unfold check_inst_slot.
     destruct (inst_slot_rule i (f_iface s)) as [r|] eqn:E; [|reflexivity].
     destruct (Gs s r Hs E). apply eval_inst_allow; assumption.
@@ -525,14 +525,14 @@ Lemma inst_variant_snap_id : forall i xp xs, od_snap_id (i_decl (inst_deny_varia
 Proof. intros i xp xs. unfold inst_deny_variant, inst_with. cbn [i_decl]. destruct (i_decl i); reflexivity. Qed.
 
 Lemma slot_inst1_variant : forall i xp xs s a, check_slot_inst1 (inst_deny_variant i xp xs) s a = check_slot_inst1 i s a.
-Proof. intros. unfold check_slot_inst1. rewrite inst_variant_snap_id. reflexivity. Qed.
+Proof. intros. unfold check_slot_inst1, check_slot_inst1_gen. rewrite inst_variant_snap_id. reflexivity. Qed.
 Lemma plug_inst1_variant : forall i xp xs p a, check_plug_inst1 (inst_deny_variant i xp xs) p a = check_plug_inst1 i p a.
-Proof. intros. unfold check_plug_inst1. rewrite inst_variant_snap_id. reflexivity. Qed.
+Proof. intros. unfold check_plug_inst1, check_plug_inst1_gen. rewrite inst_variant_snap_id. reflexivity. Qed.
 
 Lemma slot_inst1_short_false : forall i s, check_slot_inst1 i s (alt_short false) = false.
-Proof. intros. unfold check_slot_inst1. cbn. reflexivity. Qed.
+Proof. intros. unfold check_slot_inst1, check_slot_inst1_gen. cbn. reflexivity. Qed.
 Lemma plug_inst1_short_false : forall i p, check_plug_inst1 i p (alt_short false) = false.
-Proof. intros. unfold check_plug_inst1. cbn. reflexivity. Qed.
+Proof. intros. unfold check_plug_inst1, check_plug_inst1_gen. cbn. reflexivity. Qed.
 
 Lemma add_deny_rule_inst : forall (f : alt -> bool) d r, f (alt_short false) = false ->
   r_allow_inst (compile_rule (add_deny_rule 0 d r)) = r_allow_inst (compile_rule r) /\
@@ -616,4 +616,31 @@ Qed.
 Lemma lower_levels_ignored : forall auto c low, check_connect auto (conn_low_variant c low) = check_connect auto c.
 Proof.
   intros auto c low. unfold conn_low_variant. apply precedence; [apply same_ids_low | apply first_rule_low].
+Qed.
+
+(* ------------------------------------------------------------------ name regexps: the WHOLE name must equal an alternative *)
+Lemma beq_eq : forall a b : bytes, beq a b = true -> a = b.
+Proof.
+  induction a as [|x a IH]; intros [|y b] H; cbn in H; try discriminate; [reflexivity|].
+  apply andb_prop in H as [H1 H2]. apply N.eqb_eq in H1. subst y. f_equal. apply IH, H2.
+Qed.
+Lemma beq_refl : forall a : bytes, beq a a = true.
+Proof. induction a as [|x a IH]; cbn; [reflexivity|]. rewrite N.eqb_refl. exact IH. Qed.
+
+Lemma alt_lit_match_iff : forall pattern x, alt_lit_match pattern x = true <-> In x (split_bar pattern).
+Proof.
+  intros pattern x. unfold alt_lit_match. rewrite existsb_exists. split.
+  - intros (y & Hin & Hy). apply beq_eq in Hy. subst y. exact Hin.
+  - intro Hin. exists x. split; [exact Hin | apply beq_refl].
+Qed.
+
+Lemma name_match_whole : forall iface name c entry, c <> 36 ->
+  name_match iface name (c :: entry) = true <-> In name (split_bar (c :: entry)).
+Proof.
+  intros iface name c entry Hc. unfold name_match.
+  destruct c as [|p]; [apply alt_lit_match_iff|].
+  destruct (N.eq_dec (N.pos p) 36) as [E|E]; [contradiction|].
+  assert (match N.pos p with 36 => true | _ => false end = false) as Hm.
+  { destruct p as [[[[[[]|[]|]|[[]|[]|]|]|[[[]|[]|]|[[]|[]|]|]|]|[[[[]|[]|]|[[]|[]|]|]|[[[]|[]|]|[[]|[]|]|]|]|]|[[[[[]|[]|]|[[]|[]|]|]|[[[]|[]|]|[[]|[]|]|]|]|[[[[]|[]|]|[[]|[]|]|]|[[[]|[]|]|[[]|[]|]|]|]|]|]; try reflexivity; contradiction E; reflexivity. }
+  revert Hm. destruct p as [[[[[[]|[]|]|[[]|[]|]|]|[[[]|[]|]|[[]|[]|]|]|]|[[[[]|[]|]|[[]|[]|]|]|[[[]|[]|]|[[]|[]|]|]|]|]|[[[[[]|[]|]|[[]|[]|]|]|[[[]|[]|]|[[]|[]|]|]|]|[[[[]|[]|]|[[]|[]|]|]|[[[]|[]|]|[[]|[]|]|]|]|]|]; intro Hm; try discriminate Hm; apply alt_lit_match_iff.
 Qed.
